@@ -249,6 +249,7 @@ def c13_cases(h, rng, n):
 
 def c13_oracle(h, case, impl):
     fails = []
+    stray = False     # a solicited CONFIRM that confirmed nothing arrived while a mandatory broadcast was pending
     cfg = case.meta.get("cfg", {})
     restart = True
     appiin = int(cfg.get("appiin", 0))
@@ -257,6 +258,10 @@ def c13_oracle(h, case, impl):
     for op, t, lines in split_steps(impl):
         if op[0] == "appiin":
             appiin = int(op[1])
+        if op[0] == "rx" and op[2] == "none" and bcast == "mand":
+            b0 = bytes.fromhex(op[3]) if op[3] != "-" else b""
+            if len(b0) >= 2 and b0[1] == 0 and not (b0[0] & 0x10) and not any(" info " in l for l in lines):
+                stray = True
         for l in lines:
             tk = l.split()
             if len(tk) < 3:
@@ -283,7 +288,12 @@ def c13_oracle(h, case, impl):
                 if bool(iin2 & 0x08) != evinfo[3]:
                     fails.append(("overflow-bit", "overflow bit is %d but the buffer says %d" % (bool(iin2 & 8), evinfo[3])))
                 if bool(iin1 & 0x01) != (bcast is not None):
-                    fails.append(("broadcast-bit", "broadcast indication is %d, expected %d" % (iin1 & 1, bcast is not None)))
+                    if stray and bcast == "mand" and not (iin1 & 1):
+                        fails.append(("broadcast-bit-cleared-by-stray-confirm", "a confirm-mandatory broadcast indication was dropped, before it was ever reported, by a solicited CONFIRM that confirmed nothing (received during an unsolicited confirm wait)"))
+                        bcast = None
+                    else:
+                        fails.append(("broadcast-bit", "broadcast indication is %d, expected %d" % (iin1 & 1, bcast is not None)))
+                stray = False if bcast is None else stray
                 if bcast is not None and bcast != "mand":
                     bcast = None
                 want = ((appiin & 1) << 4) | ((appiin & 2) << 4) | ((appiin & 4) << 4)
